@@ -1737,11 +1737,11 @@ class HealSparseMap(object):
                     mask_values = mask_map.get_values_pix(valid_pixels)
 
                     bit_value = _bitvals_to_packed_array(mask_bit_arr, mask_map._wide_mask_maxbits)
-                    bad_pixels, = np.where(np.any((mask_values & bit_value) > 0, axis=1))
+                    bad_pixels, = np.where(np.any((mask_values & bit_value) != 0, axis=1))
             else:
-                bad_pixels, = np.where(mask_map.get_values_pix(valid_pixels) > 0)
+                bad_pixels, = np.where(mask_map.get_values_pix(valid_pixels) != 0)
         else:
-            bad_pixels, = np.where((mask_map.get_values_pix(valid_pixels) & mask_bits) > 0)
+            bad_pixels, = np.where((mask_map.get_values_pix(valid_pixels) & mask_bits) != 0)
 
         if in_place:
             new_map = self
